@@ -104,7 +104,7 @@ class Ideal:
 
 class C09(F.PropCheck):
     pid = 'C09'; gen_groups = ['RsConsts']; prop_file = 'Properties_C09'
-    IN = {'CFG': 0, 'SET': 1, 'CB': 2, 'POKE': 3}
+    IN = {'CFG': 0, 'SET': 1, 'CB': 2, 'POKE': 3, 'RESEND': 4}
     OUT = {0: 'ST', 1: 'REPORT'}
     quick_cases = 1500; thorough_cases = 1000          # thorough: 1000 cases through the framework + 30 batches of 500 (extra_quick)
     thorough_batches = 30; batch_size = 500
@@ -245,6 +245,20 @@ class C09(F.PropCheck):
             evs = [('CFG', cfg, b''), ('CB', [10000], b''), ('SET', [d], b''), ('CB', [rpt + rng.choice([-1, 0, 0, 1])], b'')]
             evs += [('CB', [rng.choice([1000, 10000, 30000])], b'') for _ in range(rng.randrange(2, 12))]
             cases.append(F.Case('%s%sB%d' % (prefix, tier[0], i), evs, ['clamp-boundary', 'float-below-floor' if want_below else 'float-exact', 'type%d' % ttype]))
+        # the command for the direction that is already running is sent again and again, at a random phase BETWEEN two callbacks
+        # (callbacks 10..250 ms): a repeated command must not drop the time since the last callback from the accounting
+        for i in range(max(16, n // 30)):
+            F_ms = rng.choice([2000, 5000, 17300, 60000, rng.randrange(1000, 30000)])
+            d = rng.choice([1, 2]); pos0 = rng.choice([100, 10100, rng.randrange(100, 10101)]) if rng.random() < 0.5 else (10100 if d == 2 else 100)
+            cfg = [rng.choice([1, rng.randrange(1, 2**32)]), F_ms, F_ms, 0, 0, rng.choice([-1, 5, 100]), pos0, 0, 250000]
+            evs = [('CFG', cfg, b''), ('CB', [10000], b''), ('SET', [d], b'')]
+            style = rng.choice(['tick10', 'tick10', 'mixed', 'coarse']); total = int(F_ms * 1000 * rng.uniform(0.15, 0.8)); t = 0; k = 0
+            while t < total and k < 2500:
+                dt = 10000 if style == 'tick10' else (rng.choice([100000, 250000, 200000, rng.randrange(50000, 250001)]) if style == 'coarse' else rng.randrange(10000, 250001))
+                if rng.random() < (0.5 if style == 'tick10' else 0.35): evs.append(('RESEND', [rng.randrange(1, dt)], b''))
+                evs.append(('CB', [dt], b'')); t += dt; k += 1
+            evs.append(('SET', [0], b'')); evs += [('CB', [100000], b'')] * 3
+            cases.append(F.Case('%s%sR%d' % (prefix, tier[0], i), evs, ['resend-same-direction', 'type0', style]))
         # boot from a state sector with arbitrary 32-bit position / tilt words (the tilt slot is a union with the RGB colour, the sector is
         # loaded without validation): what is reported from boot until the first movement must be -1 or 0..100 for EVERY stored value
         WORDS = [-1, -2147483648, -100, 0, 1, 99, 100, 101, 5100, 10099, 10100, 10101, 10150, 12900, 12950, 0xFF00, 0xFF0000, 0xFFFFFF, 0x7FFFFFFF,
